@@ -242,6 +242,29 @@ mod obj {
         let x0: Vec<f64> = xs.iter().map(|v| v + rng.range(-2.0, 2.0)).collect();
         (Problem { kind: Kind::Quad, label: if convex { "quad-convex" } else { "quad-nonconvex" }, data: vec![a, b], dim: n }, x0)
     }
+    /// Separable convex quadratic ½ Σ a_i (x_i − c_i)² whose solution components c_i differ by up to 1e12
+    /// in size (parameters in different units). `rates[i]` = stepsize·a_i is what plain gradient descent
+    /// contracts coordinate i by (|1 − rate|): 1 lands exactly, 0.5 / 0.75 / 1.5 stop changing within ~60
+    /// steps, 0.05 / 0.1 keep moving for hundreds of steps. "Stopped changing" is a statement about every
+    /// parameter, the tiny ones included.
+    pub fn quadratic_mixed_scale(rng: &mut Rng, lr: f64) -> (Problem, Vec<f64>) {
+        let n = rng.usize(2, 6);
+        let span = *rng.choose(&[3i64, 6, 6]);
+        let mut c: Vec<f64> = (0..n).map(|_| rng.range(1.0, 9.0) * (10.0f64).powi(rng.int(-span, span) as i32) * if rng.bool() { 1.0 } else { -1.0 }).collect();
+        // the extremes of the span are always present
+        c[0] = rng.range(1.0, 9.0) * (10.0f64).powi(span as i32);
+        c[1] = rng.range(1.0, 9.0) * (10.0f64).powi(-span as i32);
+        let slow = rng.chance(0.4);
+        let rates: Vec<f64> = (0..n).map(|i| if slow && i == 1 { *rng.choose(&[0.05, 0.1]) } else { *rng.choose(&[1.0, 0.5, 0.75, 1.5, 0.25]) }).collect();
+        let mut a = vec![0.0; n * n];
+        let mut b = vec![0.0; n];
+        for i in 0..n {
+            a[i * n + i] = rates[i] / lr;
+            b[i] = a[i * n + i] * c[i];
+        }
+        let x0: Vec<f64> = (0..n).map(|i| if rng.chance(0.15) { 0.0 } else { c[i] * rng.range(-1.0, 3.0) }).collect();
+        (Problem { kind: Kind::Quad, label: "quad-mixed-scale", data: vec![a, b], dim: n }, x0)
+    }
     pub fn rosenbrock(rng: &mut Rng) -> (Problem, Vec<f64>) {
         let n = *rng.choose(&[2usize, 2, 2, 3, 4]);
         let b = *rng.choose(&[100.0, 100.0, 10.0, 1.0]);
@@ -896,6 +919,183 @@ mod lm {
         });
     }
 
+
+    // -----------------------------------------------------------------------------------------
+    // linear models from far starts
+    //
+    // "reaches the least-squares solution on models linear in the parameters" from "poor starts": the
+    // start is `ratio` = 1e2..1e8 solution norms away from the least-squares solution (a generic huge
+    // initial guess, a guess in other units), in a direction whose components themselves differ by up to
+    // 1e6 in size. Three assertions under `lm-linear:far-start`:
+    //  * descent for a Fibonacci ladder of budgets 0..200;
+    //  * with tolerances (eps, eps, tau), eps in {1e-6, 1e-8, 1e-10}: a call that stopped by itself before
+    //    its budget is AT the solution as far as its own stop rules say. On a linear model J is constant,
+    //    A = JᵀJ, D = diag A, and the step is δ = (A + μD)⁻¹Jᵀr while the distance to the solution is
+    //    e = A⁻¹Jᵀr = (I + μA⁻¹D)δ. The small-step rule ‖δ‖ ≤ eps2(‖p‖ + eps2) therefore gives
+    //    ‖e‖ ≤ c(‖p_ls‖ + eps2)/(1 − c), c = (1 + μ‖A⁻¹D‖)eps2, the gradient rule ‖Jᵀr‖∞ ≤ eps1 gives
+    //    ‖e‖ ≤ ‖A⁻¹‖·sqrt(p)·eps1. μ is bounded by μ0 = tau·max D: with min D ≥ 1 the gain ratio of a linear
+    //    model is ≥ 2 at every step (actual reduction δᵀAδ + 2μδᵀDδ over ½(δᵀAδ + μδᵀDδ + μδᵀδ)), so every step
+    //    is accepted and divides μ by 3; the hooks confirm that nothing was rejected. Judged only when
+    //    c ≤ 0.1, min D ≥ 1, no rejection, and the call stopped before its budget; 16× headroom (worst seen: 0.8 of the bare bound);
+    //  * with (1e-14, 1e-14, tau) and 200 steps the solution is reached to 1e-7(1+‖p_ls‖) + floor, as in `reach_ls`.
+
+    pub struct Far {
+        pub fit: Fit,
+        pub pls: Vec<f64>,
+        pub ratio: f64,
+    }
+
+    /// a random linear problem (as in the main LM workload) with the start moved far away; None if the
+    /// normal equations are too ill-conditioned for the 1e-7 demand (same gate as `reach_ls`)
+    pub fn far_fit(rng: &mut Rng) -> Option<Far> {
+        let model = if rng.chance(0.6) { Model::Poly } else { Model::Trig };
+        let mut f = random_fit(rng, model);
+        let np = f.start.len();
+        let n = f.xs.len();
+        let j = f.jacobian(&f.start);
+        let pls = linref::ridge_ls(&j, &f.ys, None, &vec![0.0; np], n, np)?;
+        let ratio = rng.log_range(1e2, 1e8);
+        // direction: components of either sign whose sizes differ by up to 1e6
+        let spread = *rng.choose(&[0i32, 0, 2, 4, 6]);
+        let mut u: Vec<f64> = (0..np).map(|_| (10.0f64).powi(-rng.int(0, spread as i64) as i32) * if rng.bool() { 1.0 } else { -1.0 }).collect();
+        let k = rng.usize(0, np - 1);
+        u[k] = u[k].signum(); // at least one component of full size
+        let un = u.iter().map(|v| v * v).sum::<f64>().sqrt();
+        let pn = pls.iter().map(|v| v * v).sum::<f64>().sqrt().max(1e-3);
+        f.start = (0..np).map(|i| pls[i] + ratio * pn * u[i] / un).collect();
+        Some(Far { fit: f, pls, ratio })
+    }
+
+    fn norm2(v: &[f64]) -> f64 {
+        v.iter().map(|a| a * a).sum::<f64>().sqrt()
+    }
+
+    pub fn far_monitor(rep: &mut Report, far: &Far, rng: &mut Rng) {
+        let f = &far.fit;
+        let pls = &far.pls;
+        let regime = "lm-linear:far-start";
+        let np = f.start.len();
+        let n = f.xs.len();
+        let j = f.jacobian(&f.start);
+        let jt = linref::transpose(&j, n, np);
+        let a = linref::matmul(&jt, &j, np, n, np);
+        let kappa = linref::cond_inf(&a, np);
+        if !(kappa * EPS * 1e3 <= 1e-8) {
+            rep.seen("lm-linear:far-start:skipped(kappa(JtJ) > 4e4)", 1);
+            return;
+        }
+        let Some(ainv) = linref::inverse(&a, np) else { return };
+        rep.case(regime);
+        rep.seen(&format!("far-start:ratio=1e{}", far.ratio.log10().floor() as i32), 1);
+        rep.distinct(Hasher::new().s(regime).u(n as u64).fs(&f.start).fs(&f.xs[..n.min(8)]).fs(&f.ys[..n.min(8)]).finish(), true);
+        let rss0 = f.rss(&f.start);
+        if !rss0.is_finite() {
+            rep.seen("lm:skipped(start RSS not finite)", 1);
+            return;
+        }
+        let pn = norm2(pls);
+        let dist = |p: &[f64]| -> f64 {
+            let e = (0..np).map(|i| (p[i] - pls[i]) * (p[i] - pls[i])).sum::<f64>().sqrt();
+            if e.is_nan() {
+                f64::INFINITY
+            } else {
+                e
+            }
+        };
+        let lmin_a = linref::jacobi_eigenvalues(&a, np)[0].max(f64::MIN_POSITIVE);
+        // what no LM can resolve: rounding of the normal equations and of the gain-ratio test (see `reach_ls`)
+        let floor = 1e4 * kappa * EPS * (1.0 + pn) + 16.0 * (n as f64 * EPS * f.rss(pls) / lmin_a).sqrt();
+        let dmax = (0..np).map(|i| a[i * np + i]).fold(0.0f64, f64::max);
+        let dmin = (0..np).map(|i| a[i * np + i]).fold(f64::INFINITY, f64::min);
+        // ‖A⁻¹D‖₂ and ‖A⁻¹‖₂ through their Frobenius norms
+        let g = (0..np * np).map(|k| { let v = ainv[k] * a[(k % np) * np + (k % np)]; v * v }).sum::<f64>().sqrt();
+        let ainv_f = norm2(&ainv);
+
+        // ---- (1) + (2): user tolerances
+        let eps = *rng.choose(&[1e-6, 1e-6, 1e-8, 1e-10]);
+        let tau = *rng.choose(&[1e-2, 1e-3, 1e-6, 1e-9]);
+        let oo = (eps, eps, tau);
+        let o = LM::new(eps, eps, tau);
+        let kmax = 200usize;
+        let mut last: Option<(Vec<f64>, Vec<f64>, u64, u64)> = None;
+        for &k in &[0usize, 1, 2, 3, 5, 8, 13, 21, 34, 55, 89, 144, kmax] {
+            let (s0, r0) = (count(Site::LmStep), count(Site::LmReject));
+            let r = guard(|| f.call(&o, k));
+            let (steps, rej) = (count(Site::LmStep) - s0, count(Site::LmReject) - r0);
+            rep.note_add("calls.optimize(lm)", 1.0);
+            match r {
+                Err(msg) => {
+                    rep.check("C10.lm.no_panic", regime, false, || detail(f, oo, json!({"maxsteps": k, "panic": msg})));
+                    return;
+                }
+                Ok((p, cov, r_, c_)) => {
+                    rep.check("C10.lm.no_panic", regime, true, || json!(null));
+                    let shape_ok = p.len() == np && r_ == np && c_ == np && cov.len() == np * np && steps as usize <= k;
+                    if !rep.check("C10.lm.shape", regime, shape_ok, || detail(f, oo, json!({"maxsteps": k, "params": jf(&p), "cov_shape": [r_, c_], "steps": steps}))) {
+                        return;
+                    }
+                    let rss = f.rss(&p);
+                    rep.check("C10.lm.rss_not_increased", regime, rss <= rss0 * (1.0 + 1e-12), || detail(f, oo, json!({"maxsteps": k, "returned": jf(&p), "rss_start": jnum(rss0), "rss_returned": jnum(rss)})));
+                    if k == kmax {
+                        last = Some((p, cov, steps, rej));
+                    }
+                }
+            }
+        }
+        if let Some((p, cov, steps, rej)) = &last {
+            check_cov(rep, regime, f, oo, kmax, p, cov);
+            let mu0 = tau * dmax;
+            let c = (1.0 + mu0 * g) * eps;
+            if (*steps as usize) >= kmax {
+                rep.seen("lm-linear:far-start:stop-bound:low-power(budget exhausted)", 1);
+            } else if *rej > 0 {
+                rep.seen("lm-linear:far-start:stop-bound:low-power(rejected steps)", 1);
+            } else if !(dmin >= 1.0) {
+                rep.seen("lm-linear:far-start:stop-bound:low-power(min diag JtJ < 1)", 1);
+            } else if !(c <= 0.1) {
+                rep.seen("lm-linear:far-start:stop-bound:low-power(damping bound)", 1);
+            } else {
+                rep.seen("lm-linear:far-start:stop-bound:judged", 1);
+                let bound = 16.0 * (c * (pn + eps) / (1.0 - c) + ainv_f * (np as f64).sqrt() * eps) + floor;
+                let e = dist(p);
+                rep.note_max("worst_ratio.lm_far_start_distance_over_stop_bound", e / bound);
+                rep.check("C10.lm.stopped_at_least_squares", regime, e <= bound, || {
+                    detail(f, oo, json!({"maxsteps": kmax, "steps_executed": steps, "rejected_steps": rej, "start_distance_over_solution_norm": far.ratio, "returned": jf(p), "least_squares": jf(pls),
+                        "distance": jnum(e), "bound": bound, "small_step_term_c": c, "mu0": mu0, "norm_Ainv_D": g, "rss_returned": jnum(f.rss(p)), "rss_least_squares": jnum(f.rss(pls))}))
+                });
+            }
+        }
+
+        // ---- (3) tight tolerances: the solution itself
+        let tau = *rng.choose(&[1e-2, 1e-3, 1e-6]);
+        let o = LM::new(1e-14, 1e-14, tau);
+        let (a0, r0) = (count(Site::LmAccept), count(Site::LmReject));
+        match guard(|| f.call(&o, kmax)) {
+            Err(msg) => {
+                rep.check("C10.lm.no_panic", regime, false, || detail(f, (1e-14, 1e-14, tau), json!({"maxsteps": kmax, "panic": msg})));
+            }
+            Ok((p, _, _, _)) => {
+                let (acc, rej) = (count(Site::LmAccept) - a0, count(Site::LmReject) - r0);
+                let tol = 1e-7 * (1.0 + pn) + 16.0 * (n as f64 * EPS * f.rss(pls) / lmin_a).sqrt();
+                let e = dist(&p);
+                // Found on the unchanged tree: when a column of J has squared norm < 1 the gain ratio (computed
+                // with the predicted reduction of an un-scaled damping μI while the step is damped by μ·diag JᵀJ)
+                // can stay below ½ on perfectly predicted steps, the damping doubles on every ACCEPTED step and the
+                // iteration stalls a fixed fraction of the start distance away (any distance, far or near).
+                // That mechanism has its own regime; with min diag ≥ 1 it cannot occur (gain ratio ≥ 2).
+                let regime = if dmin >= 1.0 { regime } else { "lm-linear:far-start:min-diag-JtJ<1" };
+                rep.seen(if dmin >= 1.0 { "lm-linear:far-start:reach:min-diag>=1" } else { "lm-linear:far-start:min-diag-JtJ<1" }, 1);
+                if e <= tol {
+                    rep.note_max("worst_ratio.lm_far_start_distance_to_ls(tight,passing)", e / tol);
+                }
+                rep.check("C10.lm.reaches_least_squares", regime, e <= tol, || {
+                    detail(f, (1e-14, 1e-14, tau), json!({"maxsteps": kmax, "start_distance_over_solution_norm": far.ratio, "returned": jf(&p), "least_squares": jf(pls), "distance": jnum(e), "tolerance": tol,
+                        "accepted_steps": acc, "rejected_steps": rej, "kappa_JtJ": kappa, "min_diag_JtJ": dmin, "max_diag_JtJ": dmax}))
+                });
+            }
+        }
+    }
+
     /// Linear models: the least-squares solution must be reached with `LM::new(1e-14, 1e-14, τ)`.
     ///
     /// Budget: on a linear model every textbook damping rule (Marquardt ×/÷, Nielsen) shrinks μ
@@ -1024,11 +1224,12 @@ fn directed(rep: &mut Report, rng: &mut Rng) {
 }
 
 pub fn run(cfg: &Cfg, rep: &mut Report) {
-    rep.rule = "Adam/SGD: random objective (convex / non-convex quadratic in 1..8 dims with eigenvalues 0.05..4 resp. -1..4, chained Rosenbrock in 2..4 dims, mean-squared-error losses of p0*exp(p1 t)[+p2], p0*sin(p1 t+p2), (p0+p1 t)/(1+(p2 t)^2) on 5..30 points) x optimizer (Adam, plain SGD, momentum, Nesterov) x hyper-parameters (stepsize log-uniform 1e-4..0.5, beta1/beta2 in (0.01,0.9999), momentum in [0,0.99]); every maxsteps 0..K is a separate optimize call on one reused optimizer object (K = 200; thorough: 0..200 dense for all 400 cases, 12 cases dense to 2000, the others 40 random budgets k in 201..2000 each with k-1). LM: random polynomial / trigonometric (linear), exponential and logistic fits, 5..200 noisy points, 1..5 parameters, poor starts; every budget 0..200 is a separate call for n <= 12, else budgets 0..12 (0..8 for n > 100) + 10 (4) random ones + 200. non-trivial = every case (all have a non-zero gradient at the start); distinct by (regime, hyper-parameters, start, data prefix)".into();
+    rep.rule = "Adam/SGD: random objective (convex / non-convex quadratic in 1..8 dims with eigenvalues 0.05..4 resp. -1..4, chained Rosenbrock in 2..4 dims, mean-squared-error losses of p0*exp(p1 t)[+p2], p0*sin(p1 t+p2), (p0+p1 t)/(1+(p2 t)^2) on 5..30 points) x optimizer (Adam, plain SGD, momentum, Nesterov) x hyper-parameters (stepsize log-uniform 1e-4..0.5, beta1/beta2 in (0.01,0.9999), momentum in [0,0.99]); every maxsteps 0..K is a separate optimize call on one reused optimizer object (K = 200; thorough: 0..200 dense for all 400 cases, 12 cases dense to 2000, the others 40 random budgets k in 201..2000 each with k-1). LM: random polynomial / trigonometric (linear), exponential and logistic fits, 5..200 noisy points, 1..5 parameters, poor starts; every budget 0..200 is a separate call for n <= 12, else budgets 0..12 (0..8 for n > 100) + 10 (4) random ones + 200. Then separable quadratics whose solution components differ by up to 1e12 in size (2..6 dims, per-coordinate contraction rates stepsize*a_i in {1, .5, .75, 1.5, .25} and sometimes one slow coordinate .05/.1) for the four optimizers, same trajectory / early-stop oracle. Then linear LM problems started 1e2..1e8 solution norms away from the least-squares solution (direction components differing by up to 1e6): descent for budgets 0,1,2,3,5,..,144,200 with (eps,eps,tau), eps in {1e-6,1e-8,1e-10}, tau in {1e-2,1e-3,1e-6,1e-9}; a call that stopped before its budget lies within the distance its own stop rules imply; (1e-14,1e-14,tau) reaches the solution. non-trivial = every case (all have a non-zero gradient at the start); distinct by (regime, hyper-parameters, start, data prefix)".into();
     rep.assume("objectives avoid `f64 / Var` nodes: reverse 0.2.2 differentiates c/x as -1/x (a defect of the autodiff dependency, not of compute); divisions are Var/Var and Var/f64");
     rep.assume("iterates are compared while the reference is finite (< 1e150) and the self-calibrated tolerance stays below 1e-6*(1+|x|); later budgets of such a case are counted under '<regime>:low-power' and only checked for panics, shape, early-stop rule and determinism");
     rep.assume("'stopped changing' is judged on the library's own reconstructed iterates j and j-1 (4 ulp, same sign); the library iterate j is itself tied to the reference iterate j by the iterate assertion");
     rep.assume("LM: n >= p + 2 (s^2 = RSS/(n-p) is undefined for n = p); starts with non-finite RSS are skipped; reaching the least-squares solution is demanded only when kappa(JtJ) <= 4e4 (normal equations in double precision can deliver 1e-7) with LM::new(1e-14,1e-14,tau) and 200 steps (2000 in the thorough tier for the poorly conditioned class)");
+    rep.assume("LM far starts: the stop-rule bound is asserted only when the call stopped before its budget, no step was rejected (hook), min diag(JtJ) >= 1 (then every step of a linear model has gain ratio >= 2, is accepted and divides the damping by 3, so mu <= tau*max diag(JtJ)) and (1 + mu0*||inv(JtJ) diag(JtJ)||)*eps2 <= 0.1; other cases are counted under lm-linear:far-start:stop-bound:low-power(*)");
     let (ncase, kmax) = if cfg.lite { (cfg.pick(8, 8, 2), 20) } else if cfg.thorough() { (400, 2000) } else { (60, 200) };
     let nlm = cfg.pick(200, 5000, 2);
     // LM problems are generated up front (own seed per problem) so that they can be scheduled by cost
@@ -1054,14 +1255,21 @@ pub fn run(cfg: &Cfg, rep: &mut Report) {
     #[derive(Clone, Copy)]
     enum Item {
         Traj(usize),
+        TrajScaled(usize),
         Directed,
         Lm(usize),
+        LmFar(usize),
         Idle,
     }
+    // parameter vectors whose components differ by up to 1e12 in size (stream 4), linear LM fits from far starts (stream 5)
+    let nscaled = if cfg.lite { 2 } else if cfg.thorough() { 80 } else { 16 };
+    let nfar = if cfg.miri() { 0 } else { cfg.pick(150, 3000, 2) }; // 13 calls of up to 200 steps each: not in the interpreter
     let t = cfg.threads.max(1);
     let mut traj_items: std::collections::VecDeque<Item> = (0..ncase).map(Item::Traj).collect();
     traj_items.push_front(Item::Directed);
+    traj_items.extend((0..nscaled).map(Item::TrajScaled));
     let mut lm_items: std::collections::VecDeque<Item> = lm_order.iter().map(|&k| Item::Lm(k)).collect();
+    lm_items.extend((0..nfar).map(Item::LmFar));
     let mut sched: Vec<Item> = Vec::new();
     while !traj_items.is_empty() || !lm_items.is_empty() {
         let slot0 = sched.len() % t == 0;
@@ -1096,6 +1304,33 @@ pub fn run(cfg: &Cfg, rep: &mut Report) {
             let cs = CaseSpec { pr: &pr, opt: o, x0, kmax, budgets: b, regime: regime.clone(), stop_regime: regime };
             monitor_case(rep, &cs, rng);
         }
+        Item::TrajScaled(i) => {
+            let seed = case_seed(cfg.seed, 4, i as u64);
+            rep.case_seed = seed;
+            let rng = &mut Rng::new(seed);
+            // the stepsize fixes the per-coordinate contraction rates of the problem, so it is drawn first
+            let lr = rng.log_range(1e-3, 0.5);
+            let (pr, x0) = obj::quadratic_mixed_scale(rng, lr);
+            let o = match i % 4 {
+                0 => Opt::Adam { lr, b1: if rng.bool() { 0.9 } else { rng.range(0.01, 0.99) }, b2: if rng.bool() { 0.999 } else { rng.range(0.01, 0.9999) }, eps: 1e-8 },
+                1 => Opt::Sgd { lr, mom: 0.0, nesterov: false },
+                2 => Opt::Sgd { lr, mom: rng.range(0.05, 0.6), nesterov: false },
+                _ => Opt::Sgd { lr, mom: rng.range(0.05, 0.6), nesterov: true },
+            };
+            let regime = format!("{}:{}", o.name(), pr.label);
+            let b = budgets(kmax, 200.min(kmax), 40, rng);
+            let cs = CaseSpec { pr: &pr, opt: o, x0, kmax, budgets: b, regime: regime.clone(), stop_regime: regime };
+            monitor_case(rep, &cs, rng);
+        }
+        Item::LmFar(k) => {
+            let seed = case_seed(cfg.seed, 5, k as u64);
+            rep.case_seed = seed;
+            let rng = &mut Rng::new(seed);
+            match lm::far_fit(rng) {
+                Some(far) => lm::far_monitor(rep, &far, rng),
+                None => rep.seen("lm-linear:far-start:skipped(no reference solution)", 1),
+            }
+        }
         Item::Lm(k) => {
             let (seed, f) = &fits[k];
             rep.case_seed = *seed;
@@ -1113,6 +1348,15 @@ pub fn run(cfg: &Cfg, rep: &mut Report) {
         }
         for l in ["lm:linear-poly", "lm:linear-trig", "lm:exp", "lm:logistic", "lm-linear:corr-lmin>=0.05", "lm-linear:corr-lmin<0.05"] {
             rep.require(l, 1);
+        }
+        for o in ["adam", "sgd", "momentum", "nesterov"] {
+            rep.require(&format!("{}:quad-mixed-scale", o), 1);
+        }
+        rep.require("early-stop:sgd", 1);
+        rep.require("lm-linear:far-start", 1);
+        rep.require("lm-linear:far-start:stop-bound:judged", 1);
+        for d in 2..8 {
+            rep.require(&format!("far-start:ratio=1e{}", d), 1);
         }
         for s in ["adam.step", "sgd.step", "lm.step", "lm.accept", "lm.reject"] {
             rep.require(s, 1);
